@@ -275,3 +275,149 @@ fn std_str_patterns() {
     assert!((s == p) == (sb == pb));
     assert!(s.is_empty() == sb.is_empty() && s.len() == sb.len());
 }
+
+// ---- prelude: Option::filter, Cow deref / as_ref / From<&[T]>, <[T]>::to_vec (complete for the
+//      scalar facts; the slice facts on a 3-byte array) -----------------------------------------------
+#[kani::proof]
+#[kani::unwind(6)]
+fn std_option_cow_facts() {
+    use std::borrow::Cow;
+    let o: Option<u8> = kani::any();
+    let k: u8 = kani::any();
+    let r = o.filter(|v| *v == k);
+    match o {
+        None => assert!(r.is_none()),
+        Some(x) => assert!(r == if x == k { Some(x) } else { None }),
+    }
+    let a: [u8; 3] = kani::any();
+    let c: Cow<'_, [u8]> = Cow::from(&a[..]);
+    assert!(matches!(c, Cow::Borrowed(_)));
+    let d: &[u8] = &c;
+    let e: &[u8] = c.as_ref();
+    assert!(d == &a[..] && e == &a[..]);
+    let v = a[..].to_vec();
+    assert!(v.len() == 3 && v[0] == a[0] && v[1] == a[1] && v[2] == a[2]);
+    let owned: Cow<'_, [u8]> = Cow::Owned(v);
+    let f: &[u8] = owned.as_ref();
+    assert!(f == &a[..]);
+    let s: Cow<'_, str> = Cow::Borrowed("PROXY");
+    let t: &str = s.as_ref();
+    let u: &str = &s;
+    assert!(t.as_bytes() == b"PROXY" && u.as_bytes() == b"PROXY");
+}
+
+// ---- prelude R15: s.iter().position(f) (bounded: slices of at most 4 bytes) ------------------------
+#[kani::proof]
+#[kani::unwind(7)]
+fn std_slice_position() {
+    let a: [u8; 4] = kani::any();
+    let len: usize = kani::any();
+    kani::assume(len <= 4);
+    let s = &a[..len];
+    let k: u8 = kani::any();
+    let r = s.iter().position(|&c| c == k);
+    match r {
+        Some(i) => {
+            assert!(i < len && s[i] == k);
+            let j: usize = kani::any();
+            kani::assume(j < i);
+            assert!(s[j] != k);
+        }
+        None => {
+            let j: usize = kani::any();
+            kani::assume(j < len);
+            assert!(s[j] != k);
+        }
+    }
+}
+
+// ---- prelude: str slicing wrappers and the boundary notion (bounded: strings of at most 3 units
+//      over {"a", "\r", " ", U+00E9 (2 bytes), U+20AC (3 bytes)}) ----------------------------------------
+/// fills `buf` with up to `max` units and returns the length in bytes
+fn sym_units(buf: &mut [u8; 9], max: usize) -> usize {
+    let units: usize = kani::any();
+    kani::assume(units <= max);
+    let mut len = 0;
+    let mut u = 0;
+    while u < 3 {
+        if u < units {
+            let k: u8 = kani::any();
+            kani::assume(k < 5);
+            match k {
+                0 => { buf[len] = b'a'; len += 1; }
+                1 => { buf[len] = b'\r'; len += 1; }
+                2 => { buf[len] = b' '; len += 1; }
+                3 => { buf[len] = 0xC3; buf[len + 1] = 0xA9; len += 2; }
+                _ => { buf[len] = 0xE2; buf[len + 1] = 0x82; buf[len + 2] = 0xAC; len += 3; }
+            }
+        }
+        u += 1;
+    }
+    len
+}
+
+#[kani::proof]
+#[kani::unwind(12)]
+fn std_str_slicing_utf8() {
+    let mut buf = [0u8; 9];
+    let len = sym_units(&mut buf, 3);
+    let bytes = &buf[..len];
+    // from_utf8 accepts it and denotes the same bytes
+    let s = match std::str::from_utf8(bytes) { Ok(s) => s, Err(_) => { assert!(false); return; } };
+    assert!(s.as_bytes() == bytes);
+    let b: usize = kani::any();
+    kani::assume(b <= len + 1);
+    // vstd: is_char_boundary(bytes, b) <==> b == len or bytes[b] is not a continuation byte (0x80..=0xBF)
+    let boundary = b <= len && (b == len || !(0x80..=0xBF).contains(&bytes[b]));
+    assert!(s.is_char_boundary(b) == boundary);
+    // str_get_to / str_slice_to / str_slice_from / str_slice
+    match s.get(..b) {
+        Some(t) => { assert!(boundary); assert!(t.as_bytes() == &bytes[..b]); }
+        None => assert!(!boundary),
+    }
+    if boundary {
+        assert!(s[..b].as_bytes() == &bytes[..b]);
+        assert!(s[b..].as_bytes() == &bytes[b..]);
+        let a: usize = kani::any();
+        kani::assume(a <= b && s.is_char_boundary(a));
+        assert!(s[a..b].as_bytes() == &bytes[a..b]);
+    }
+    // an ASCII byte starts and ends a character
+    let i: usize = kani::any();
+    kani::assume(i < len);
+    if bytes[i] < 128 {
+        assert!(s.is_char_boundary(i) && s.is_char_boundary(i + 1));
+    }
+}
+
+// ---- prelude R13: the split model on non-ASCII text (bounded: at most 3 units over the alphabet above, n in 1..3)
+#[kani::proof]
+#[kani::unwind(12)]
+fn std_splitn_model_utf8() {
+    let mut buf = [0u8; 9];
+    let len = sym_units(&mut buf, 3);
+    let s = match std::str::from_utf8(&buf[..len]) { Ok(s) => s, Err(_) => { assert!(false); return; } };
+    let n: usize = kani::any();
+    kani::assume(n >= 1 && n <= 3);
+    let mut model = [(0usize, 0usize); 8];
+    let m = splitn_model(s.as_bytes(), n, &mut model);
+    let mut it = s.splitn(n, |c| c == ' ' || c == '\r').peekable();
+    let mut k = 0;
+    while k < 4 {
+        let peeked_none = it.peek().is_none();
+        match it.next() {
+            None => {
+                assert!(peeked_none);
+                assert!(k == m);
+                break;
+            }
+            Some(piece) => {
+                assert!(!peeked_none);
+                assert!(k < m);
+                let (a, b) = model[k];
+                assert!(piece.as_bytes() == &s.as_bytes()[a..b]);
+            }
+        }
+        k += 1;
+    }
+}
